@@ -558,6 +558,9 @@ class Interp:
             if full in lib.CONSTS:
                 return lib.CONSTS[full]
             return ModuleV(full)
+        if isinstance(base, Obj) and base.cls == "rng" and attr == "bit_generator":
+            from . import lib_fs
+            return lib_fs.bit_generator_of(self, st, base)
         if isinstance(base, Obj):
             raw_attr = attr
             attr = self.mangle(attr, fr.cls if fr else None)
@@ -668,6 +671,15 @@ class Interp:
                             else:
                                 self.reg["classes"]["$tmp"] = saved
                         return Opt(isnone, inner)
+                    if t[:4] in ("arr2", "arr3", "arr4") and t[5:-1] in ("real", "int"):
+                        nd = int(t[3])
+                        inner = t[5:-1]
+                        shf = [z3.Function(f"fld_{attr}#s{k}", ObjS, z3.IntSort()) for k in range(nd)]
+                        ef = z3.Function(f"fld_{attr}#el", ObjS, *([z3.IntSort()] * nd), _zsort(inner))
+                        for f_ in shf:
+                            st.fact(f_(base.term) >= 0)
+                        return Arr(tuple(f_(base.term) for f_ in shf),
+                                   lambda *idx, tm=base.term: ef(tm, *[to_z3(i) for i in idx]), kind="ndarray", etype=inner)
                     if t.startswith("arr1["):
                         t = "seq[" + t[5:]
                     if t in ("int", "nat", "pos", "real", "bool", "str", "class") or t.startswith("opaque"):
